@@ -307,9 +307,9 @@ def get_suite(seed, tier):
         t0 = time.time()
         cases = build_cases(seed, tier)
         work = os.path.join(CACHE, 'suite-work-' + tier)
-        res = pegdiff.run_cases(cases, work, nbatch=14)
+        res = pegdiff.run_cases(cases, work, nbatch=14, seed=seed)
         out = dict(key=key, seed=seed, tier=tier, wall_s=time.time() - t0, timing=res['timing'],
-                   gen={k: list(v) for k, v in res['gen'].items()}, compile_fail=res['compile_fail'],
+                   gen={k: list(v) for k, v in res['gen'].items()}, compile_fail=res['compile_fail'], hist=res['hist'],
                    cases=[dict(id=c['id'], tags=c['tags'], group=c['group'], variant=c['variant'], uctx=c['settings']['uctx'],
                                text=gast.pp_grammar(c['rules']), sexp=gast.sx_grammar(c['rules']),
                                inputs=[[r, s] for r, s in c['inputs']]) for c in cases],
